@@ -5,6 +5,7 @@ import (
 	"encoding/json"
 	"fmt"
 	"regexp"
+	"sort"
 	"strconv"
 	"strings"
 
@@ -453,6 +454,43 @@ func (r *runner) byteSweep() {
 	}
 }
 
+func nestedCalls() [][]string {
+	outers := map[string]int{"not": 1, "string-length": 1, "string": 1, "contains": 2, "concat": 2, "starts-with": 2, "substring": 3, "translate": 3}
+	inners := [][]string{{"string", "(", "a", ")"}, {"concat", "(", "a", ",", "'s'", ")"}, {"true", "(", ")"}, {"current", "(", ")"}, {"contains", "(", "a", ")"}, {"string", "(", "a", ",", "a", ")"},
+		{"substring", "(", "a", ",", "1", ",", "string-length", "(", "a", ")", ")"}, {"a", "[", "starts-with", "(", "a", ",", "'s'", ")", "]"}}
+	var names []string
+	for n := range outers {
+		names = append(names, n)
+	}
+	sort.Strings(names)
+	var out [][]string
+	for _, f := range names {
+		n := outers[f]
+		for m := n - 1; m <= n+1; m++ {
+			if m < 1 {
+				continue
+			}
+			for p := 0; p < m; p++ {
+				for _, in := range inners {
+					q := []string{f, "("}
+					for i := 0; i < m; i++ {
+						if i > 0 {
+							q = append(q, ",")
+						}
+						if i == p {
+							q = append(q, in...)
+						} else {
+							q = append(q, "a")
+						}
+					}
+					out = append(out, append(q, ")"))
+				}
+			}
+		}
+	}
+	return out
+}
+
 func run(c *engine.Ctx) {
 	r := &runner{c: c}
 	r.byteSweep()
@@ -470,6 +508,18 @@ func run(c *engine.Ctx) {
 	c.Sample(map[string]any{"lang": "expr", "tokens": []string{"a", "[", "div", "=", "1", "]"}, "rendered": "a [ div = 1 ]"})
 	for i, base := range exprCorpus {
 		r.mutations("expr", base, exprTokens, fmt.Sprintf("ec%d", i))
+	}
+	// nested calls: every function of arity 1..3 with one argument too few, the right number and one too
+	// many, and in every argument position an inner call (right and wrong arity, with and without
+	// arguments of its own): the arity of a call is counted per call
+	for _, q := range nestedCalls() {
+		if r.c.Expired() {
+			return
+		}
+		if r.c.Owns("nc" + strings.Join(q, " ")) {
+			r.one("expr", q, " ")
+			r.one("expr", q, "")
+		}
 	}
 	steps, preds := 2, 1
 	if !c.Quick() {
